@@ -925,6 +925,8 @@ HEADER = """(* GENERATED by tools/gen_src.py from the Python source text of /rep
    One Gallina definition per translated Python function / method (per concrete class). *)
 From PowHsm Require Export Py.ValGen.
 Open Scope string_scope.
+Open Scope list_scope.
+Open Scope N_scope.
 """
 
 
